@@ -57,7 +57,7 @@ M = {
  ],
  "checks": [
    check("C06",
-         "Seeded search over schedules and fault sequences: the real ED workflow (Hamiltonian prepare/compute, GF, TwoParticleGF::compute, container computeAll split/unsplit) runs SPMD on 1..16 simulated ranks with 1..16 simulated OpenMP threads; every rank's eigen-data, G, chi tables and chi-from-terms are compared with the 1-rank/1-thread reference, and deadlock/hang/collective-mismatch/step-budget detectors decide termination. Exploration level: every run is one exactly replayable schedule; many thousands of distinct schedules per quick run.",
+         "Seeded search over schedules and fault sequences: the real ED workflow (Hamiltonian prepare/compute incl. repeated calls, GF, TwoParticleGF::compute, 1-3 consecutive container computeAll calls split/unsplit with/without clearing) runs SPMD on 1..16 simulated ranks with 1..16 simulated OpenMP threads; every rank's eigen-data, G, returned chi tables (incl. boundary-sized and duplicate-point frequency lists) and chi-from-terms are compared with the 1-rank/1-thread reference, and deadlock/hang/collective-mismatch/step-budget/cpu-spin detectors decide termination. Exploration level: every run is one exactly replayable schedule; ~20 000 distinct schedules per quick run, ~5*10^5 per thorough run.",
          TRUST, "deterministic simulation (seeded scheduler + simulated MPI/OpenMP) with differential oracle against 1 rank / 1 thread", "DESIGN.md §3.2"),
    check("C13",
          "Seeded request histories (fill/prepareAll/computeAll split+unsplit/on-demand lookup/prepare+compute of an element/evaluate) run SPMD on 1..4 simulated ranks under seeded schedules; after every operation each evaluable listed quadruple is compared with a directly constructed TwoParticleGF, the exchange identities are checked between entries, and a small status model states which elements must be evaluable.",
@@ -66,7 +66,7 @@ M = {
          "The real MPIMaster/MPIWorker/mpi_skel::run execute over simulated MPI on 1..16 ranks, 1..4 rounds, 0..40 jobs under seeded interleavings, latencies, stalls, eager/rendezvous sends; the recorded history is checked for exactly-once execution, agreement and truthfulness of the returned map and exit of every rank (deadlock/hang/step-budget detectors). Small configurations get a fixed share so that their interleaving space is sampled densely; no exhaustiveness is claimed.",
          TRUST, "deterministic simulation: seeded schedule/fault search over the real dispatcher on simulated MPI, history checker", "DESIGN.md §3.1"),
    check("C17",
-         "ASan+UBSan stay live inside every simulated run of the dispatcher, parallel-workflow, container-history and workflow-history harnesses (1..4+ ranks); simulated MPI copies every message with instrumented memcpy into the caller's buffer, so wrong counts, dead buffers and non-owner code paths become visible. Scoped to the sampled model family.",
+         "ASan+UBSan stay live inside every simulated run of the dispatcher, parallel-workflow, container-history and workflow-history harnesses (1..16 ranks); simulated MPI reads and writes every caller buffer with a plain memcpy at the address and length the caller gave, so wrong counts, null or dead buffers and non-owner code paths become visible; runs in which ranks disagree about the size of a buffer that crosses MPI (collective-count-mismatch, truncation) count as violations too; the thorough tier adds a valgrind-memcheck subsample for uninitialised reads. Scoped to the sampled model family and call histories.",
          TRUST + " Sanitizer coverage is that of gcc-12 ASan/UBSan; uninitialised reads only via a valgrind subsample in the thorough tier.",
          "deterministic simulation with sanitizers live in every simulated run (memory faults at MPI buffer boundaries made observable)", "DESIGN.md §3.4"),
  ],
